@@ -722,7 +722,7 @@ impl B<'_, '_> {
             match (build(&mut a, &inner_prog), build(&mut a, &env_d)) {
                 (Ok(p), Ok(e)) => {
                     let dialect = ChiaDialect::new(ClvmFlags::from_bits_truncate(flags));
-                    std::panic::catch_unwind(std::panic::AssertUnwindSafe(|| run_program(&mut a, &dialect, p, e, 2_000_000_000).map(|r| r.0)))
+                    std::panic::catch_unwind(std::panic::AssertUnwindSafe(|| run_program(&mut a, &dialect, p, e, 50_000_000).map(|r| r.0)))
                         .ok()
                         .and_then(|r| r.ok())
                 }
@@ -973,7 +973,7 @@ pub fn nest_guards(inner: &Dag, env: &Dag, depth: u32, ext: u32, flags: u32) -> 
             let p = build(&mut a, &prog).ok()?;
             let e = build(&mut a, &cur_env).ok()?;
             let dialect = ChiaDialect::new(ClvmFlags::from_bits_truncate(run_flags));
-            run_program(&mut a, &dialect, p, e, 0).ok()?.0
+            run_program(&mut a, &dialect, p, e, 100_000_000).ok()?.0
         };
         let mut d = Dag::new();
         let q = |d: &mut Dag, v: u32| {
